@@ -66,6 +66,8 @@ func c04Render(b *bytes.Buffer, v any) {
 		} else {
 			b.WriteString("false")
 		}
+	case "z":
+		b.WriteString("null")
 	case "a":
 		b.WriteByte('[')
 		for i, x := range asSlice(m["a"]) {
@@ -144,6 +146,8 @@ func c04Parse(dec *json.Decoder) (any, error) {
 		return map[string]any{"t": "n", "n": n}, nil
 	case bool:
 		return map[string]any{"t": "b", "b": t}, nil
+	case nil:
+		return map[string]any{"t": "z"}, nil
 	}
 	return nil, fmt.Errorf("unsupported JSON token %v", tok)
 }
@@ -215,6 +219,10 @@ func c04Option(name string) openapi3.ValidationOption {
 		return openapi3.DisableSchemaFormatValidation()
 	case "AllowExt":
 		return openapi3.AllowExtensionsWithRef()
+	case "RxAny":
+		return openapi3.SetRegexCompiler(func(string) (openapi3.RegexMatcher, error) { return c04AnyMatcher{}, nil })
+	case "RxStd":
+		return openapi3.SetRegexCompiler(nil)
 	case "AllowDesc":
 		return openapi3.AllowExtraSiblingFields("description")
 	case "AllowZzz":
@@ -222,6 +230,11 @@ func c04Option(name string) openapi3.ValidationOption {
 	}
 	panic("harness: C04: unknown option " + name)
 }
+
+// c04AnyMatcher: what the accept-everything regex compiler (option RxAny) returns.
+type c04AnyMatcher struct{}
+
+func (c04AnyMatcher) MatchString(string) bool { return true }
 
 // ---- navigation to the reference wrapper at a JSON pointer of the loaded document
 
@@ -421,11 +434,19 @@ func c04Share(text []byte, sets [][]string, w int, unresolve bool, at []string, 
 		}
 		var err error
 		vp, vmsg := guard(func() {
-			vopts := make([]openapi3.ValidationOption, 0, len(sets[i]))
-			for _, o := range sets[i] {
+			names, viaCtx := sets[i], false
+			if len(names) > 0 && names[0] == "@ctx" { // the options travel in the context, not as arguments
+				names, viaCtx = names[1:], true
+			}
+			vopts := make([]openapi3.ValidationOption, 0, len(names))
+			for _, o := range names {
 				vopts = append(vopts, c04Option(o))
 			}
-			err = doc.Validate(context.Background(), vopts...)
+			if viaCtx {
+				err = doc.Validate(openapi3.WithValidationOptions(context.Background(), vopts...))
+			} else {
+				err = doc.Validate(context.Background(), vopts...)
+			}
 		})
 		switch {
 		case vp:
